@@ -99,6 +99,13 @@ def prop_of_seed(d):
         return None
 
 
+def also_of_seed(d):
+    try:
+        return json.load(open(os.path.join(d, 'meta.json'))).get('also_check', [])
+    except Exception:
+        return []
+
+
 def cmd_run(props, tier='quick', which='all'):
     respath = os.path.join(ROOT, 'mutations', 'RESULTS.json')
     results = json.load(open(respath)) if os.path.exists(respath) else {}
@@ -111,6 +118,8 @@ def cmd_run(props, tier='quick', which='all'):
             for sd in sorted(glob.glob(os.path.join(ROOT, 'seeded', '*'))):
                 if prop_of_seed(sd) == p:
                     targets.append((p, 'seeded/%s' % os.path.basename(sd), os.path.join(sd, 'patch.diff')))
+                elif p in also_of_seed(sd):     # a change filed under one property that another check must catch
+                    targets.append((p, 'seeded/%s@%s' % (os.path.basename(sd), p), os.path.join(sd, 'patch.diff')))
     head = sh(['git', '-C', REPO, 'rev-parse', '--short', 'HEAD']).stdout.strip()
     for p, key, diff in targets:
         with Worktree() as wt:
